@@ -21,7 +21,7 @@ type Variant struct {
 	Prop   string   `json:"prop"`
 	Edits  []string `json:"edits"`
 	Patch  []string `json:"patch,omitempty"` // unified diffs (relative to /verif) applied to the overlay
-	Expect string   `json:"expect"` // obligation id that must report, or "none" for neutral variants
+	Expect string   `json:"expect"`          // obligation id that must report, or "none" for neutral variants
 	Note   string   `json:"note,omitempty"`
 }
 
